@@ -393,3 +393,22 @@ def ABS(a):
     if is_z3(a):
         return z3.If(a >= 0, a, -a)
     return abs(_f(a))
+
+
+# exact comparisons (never widened by MARGIN / float tolerance): for structural conditions inside a claim
+def XLE(a, b):
+    if _sym(a, b):
+        return to_z3(a) <= to_z3(b)
+    return _f(a) <= _f(b)
+
+
+def XLT(a, b):
+    if _sym(a, b):
+        return to_z3(a) < to_z3(b)
+    return _f(a) < _f(b)
+
+
+def XEQ(a, b):
+    if _sym(a, b):
+        return to_z3(a) == to_z3(b)
+    return _f(a) == _f(b)
